@@ -13,7 +13,7 @@ import tempfile
 
 from wcmatch import wcmatch as W
 
-ROOT = tempfile.mkdtemp(prefix='wcverif_c15_')
+ROOT = tempfile.mkdtemp(prefix='wcverif_c15_', dir=os.environ.get('WCVERIF_SCRATCH') or None)
 atexit.register(shutil.rmtree, ROOT, True)
 for rel in ('a.txt', 'b.log', 'c.txt', '.h.txt', 'sub/d.txt', 'sub/e.log', 'sub/f.txt', 'sub2/g.txt', 'sub2/deep/i.log', 'sub2/deep/j.txt'):
     p = os.path.join(ROOT, rel)
